@@ -842,7 +842,8 @@ def tagwrap(rep, meta, sfx):
     for fn in meta.bodies:
         if fn.get("body") is None or fn.get("exp") or not fn["path"].startswith("pest_meta::parser::"):
             continue
-        calls = [x for x in hirq.walk_no_closures(fn["body"]) if kind(x) == "Call" and callee(x) == GT]
+        calls = [x for x in hirq.walk_no_closures(fn["body"]) if (kind(x) == "Call" and callee(x) == GT)
+                 or (kind(x) == "Block" and x.get("inlined") == GT)]
         if not calls:
             continue
         n += 1
